@@ -617,6 +617,20 @@ def stream_tree(chk, i, rng):
     replay = {"splits": splits, "d": d, "m": m, "A": A.tolist()}
     node = 0 if rng.random() < 0.5 else int(rng.integers(0, tr.n_nodes))
     ta = tree_arrays(tr)
+    if m and np.isfinite(A).all() and splits:
+        # Tree.predict itself on other representations of the same (integer-valued) rows; thresholds are fractional
+        ref = np.asarray(tr.predict(A, node))
+        for vtag, V in representations(A, rng):
+            if isinstance(V, np.ndarray):
+                snap = snapshot(V)
+                try:
+                    got = np.asarray(tr.predict(V, node))
+                except Exception as e:  # noqa
+                    chk.fail(f"tree:repr:{vtag}:raises", f"Tree.predict raised {type(e).__name__}: {e} on the rows as {vtag}", dict(replay, node=node, tree=ta), layer="L3")
+                    continue
+                if not np.array_equal(got, ref) or not unchanged(V, snap):
+                    chk.fail(f"tree:repr:{vtag}", f"Tree.predict on the rows as {vtag} differs from the float64 reference (or modified its argument)", dict(replay, node=node, tree=ta), layer="L3")
+        chk.dist["tree-repr"] += 1
     if node == 0:
         L, leaves = check_tree(chk, "tree", tr, A, rng, replay, tr.predict, maps=index_maps(rng, m, singles=m <= 8) if m else [])
     else:
@@ -1026,10 +1040,16 @@ def repr_training_data(rng, n, d):
     return np.ascontiguousarray(X)
 
 
+REPR_NAMES = ALL_INDUCTIVE + ["Kauri", "Douglas", "Kauri"]
+
+
 def stream_repr(chk, i, rng):
-    name = ALL_INDUCTIVE[i % len(ALL_INDUCTIVE)]
+    name = REPR_NAMES[i % len(REPR_NAMES)]
     n, d = int(rng.integers(8, 20)), int(rng.integers(1, 4))
     X = repr_training_data(rng, n, d)
+    if name == "Kauri":
+        # every training value (hence every threshold) is an odd multiple of 1/8; half of the time mostly negative
+        X = np.ascontiguousarray(np.clip((2.0 * np.round(impl.blobs(rng, n, d, k=3) * 4.0) + 1.0) / 8.0 - float(rng.choice([0.0, 6.0])), -12.875, 12.875))
     glabel, K, factory = refit_factory(name, rng, n, True)
     est = factory().fit(X)
     key = "repr:" + ("linear" if name in LINEAR else "mlp" if name in MLP + SPMLP else name.lower())
@@ -1039,11 +1059,12 @@ def stream_repr(chk, i, rng):
     m = int(rng.integers(4, 10))
     queries = [("integers", rng.integers(-6, 7, size=(m, d)).astype(float)), ("zero-one", rng.integers(0, 2, size=(m, d)).astype(float)),
                ("eighths", rng.integers(-48, 49, size=(m, d)) / 8.0)]
-    if name == "Kauri":      # integer queries right next to the (fractional, often negative) thresholds
+    if name == "Kauri":      # integer queries on both sides of every (fractional, often negative) threshold: each feature sweeps -13..13
         ths = [(f, t) for f, t in zip(est.tree_.features, est.tree_.thresholds) if f is not None]
-        for f, t in ths[:m]:
-            queries[0][1][int(rng.integers(0, m)), f] = float(np.floor(t) if rng.random() < 0.5 else np.ceil(t))
-        frac = sum(1 for _, t in ths if t != np.round(t))
+        m = 27
+        sweep = np.stack([rng.permutation(np.arange(-13, 14)) for _ in range(d)], axis=1).astype(float)
+        queries = [("integers", sweep), ("zero-one", rng.integers(0, 2, size=(m, d)).astype(float)), ("eighths", rng.integers(-48, 49, size=(m, d)) / 8.0)]
+        frac = sum(1 for _, t in ths if t != np.round(t) and t < 0)
     elif name == "Douglas":
         frac = sum(int(np.sum(np.asarray(c) != np.round(c))) for _, c in est.cut_points_list_)
     else:
@@ -1338,7 +1359,7 @@ def stream_malformed(chk, i, rng):
 
 
 STREAMS = {"gradient": (stream_gradient, 390, 3900), "krim": (stream_krim, 84, 840), "douglas": (stream_douglas, 60, 600),
-           "kauri": (stream_kauri, 120, 1800), "tree": (stream_tree, 300, 4500), "kauri_adv": (stream_kauri_adv, 120, 2000), "refit": (stream_refit, 150, 1800), "repr": (stream_repr, 45, 600), "degenerate": (stream_degenerate, 54, 720), "routes": (stream_routes, 30, 450),
+           "kauri": (stream_kauri, 120, 1800), "tree": (stream_tree, 300, 4500), "kauri_adv": (stream_kauri_adv, 120, 2000), "refit": (stream_refit, 150, 1800), "repr": (stream_repr, 54, 720), "degenerate": (stream_degenerate, 54, 720), "routes": (stream_routes, 30, 450),
            "malformed": (stream_malformed, 24, 240)}
 
 
